@@ -364,7 +364,7 @@ def eval_text(uft, fn, t):
             prev = p
         org, at = origin(t, p, y)
         if y == "":
-            mechs.append(("C16:extract:empty-string:" + org, {"index": k, "yielded": ys}))
+            mechs.append(("C16:extract:empty-string", {"index": k, "yielded": ys}))
             continue
         if y != y.strip():
             mechs.append(("C16:extract:surrounding-whitespace:" + org, {"index": k, "item": y}))
@@ -391,7 +391,9 @@ def eval_text(uft, fn, t):
                     except Exception:
                         break
             if cut is not None:
-                mech = "C16:extract:not-a-url:trimmed:" + follow(t, at + len(y))
+                # class of what was cut: any typographic (non-ASCII) character in it, else ASCII punctuation, else letters/digits
+                kind = "typographic" if not cut.isascii() else "alnum" if any(c.isalnum() for c in cut) else "ascii-punct"
+                mech = "C16:extract:not-a-url:trimmed:" + kind
                 why = "accepted with %r behind it" % cut
             elif org in ("markdown-target", "markdown-label"):
                 # one cause per half, whatever the text around '](' looks like: the half is yielded without being matched as a URL
@@ -478,7 +480,7 @@ DIRECTED_TEXTS = [
     "\u00abhttp://a.com\u00bb", "http://a.com/\u00bb", "\u201chttp://a.com/x\u201d.", "http://a.com:8", "http://a.com:123456", "u@http://a.com", "http://a.com/\u00a0x", "http://a.com/x?!", "http://a.com/x?!.", "(http://a.com/x_(y))",
     "please visit my website, https://oilab.eu/stijn, it's great", "I recently read this (https://nytimes.com/some-url-with-(parentheses))", "This is a [markdown]( https://lefigaro.fr) link.", "[http://www.lemonde.fr]",
     "What do you think of https://lemonde.fr? http://www.lemonde.fr. It is good http://www.lemonde.fr#?.", "This is: \"http://www.liberation.fr\" and 'https://lefigaro.fr'.",
-    "[https://youtu.be/rLZ2ZzoD-W0](https://youtu.be/rLZ2ZzoD-W0?fbclid=IwAR3)", "lemonde.fr and a.com/x have no protocol", "", " ", "no url here.", "http://", "[](", "](", "[http://a.com/](http://t.c\u2026)", "[http://u](x@a.com)", "[//](@w.uk", "[http://a.com/](//b)",
+    "[https://youtu.be/rLZ2ZzoD-W0](https://youtu.be/rLZ2ZzoD-W0?fbclid=IwAR3)", "lemonde.fr and a.com/x have no protocol", "", " ", "no url here.", "http://", "[](", "](", "[http://a.com/](http://t.c\u2026)", "[http://u](x@a.com)", "[//](@w.uk", "http://o.\u2026\u2019", "http://a.b\u2026.", "[http://a.com/](//b)",
     "http://localhost:80/x, http://1.2.3.4/y; ftp://a.com/z!", "mailto:u@a.com http://u:p@a.com/x.", "http://a.com/x\nhttp://b.org/y\r\nhttp://c.net", "http://\u00e9.fr/\u00e9t\u00e9\u3001http://b.org",
 ]
 
